@@ -74,10 +74,14 @@ Definition spec_prefixes (cb : string) (streams : list string) : list string := 
 
 (* ---------- _shorten_key and the sensor table ---------- *)
 Definition drop (n : nat) (s : string) : string := substring n (String.length s - n) s.
+Definition take (n : nat) (s : string) : string := substring 0 n s.
 
+(* _shorten_key: `for prefix in telstate.prefixes: if key.startswith(prefix): return key[len(prefix):]` then
+   `return ''` (GENERATED: the direction of the scan sk_reversed, the fall-through value sk_nomatch) *)
+Definition scan_prefixes (ps : list string) : list string := if sk_reversed then rev ps else ps.
 Fixpoint shorten_key (prefixes : list string) (key : string) : string :=
   match prefixes with
-  | [] => ""
+  | [] => sk_nomatch
   | p :: ps => if String.prefix p key then drop (String.length p) key else shorten_key ps key
   end.
 
@@ -103,28 +107,34 @@ Definition sensor_step_unranked (prefixes : list string) (t : table) (e : entry)
 Definition sensor_table_unranked (prefixes : list string) (st : store) : table :=
   fold_left (sensor_step_unranked prefixes) st [].
 
-(* AFTER the fix: each entry remembers the rank (index of the owning prefix); a key only replaces an entry of
-   the same name when its namespace is at least as specific:
-     rank = prefixes.index(key[:len(key) - len(name)]);  if rank <= ranks.get(name, rank): ... *)
+(* AFTER the fix, statement by statement (TelstateDataSource.__init__):
+     for key in telstate.keys():
+         if telstate.key_type(key) == KeyType.MUTABLE:             (GENERATED sn_key_type, sn_key_type_eq)
+             sensor_name = _shorten_key(telstate, key)
+             if sensor_name:
+                 rank = telstate.prefixes.index(key[:len(key) - len(sensor_name)])
+                 if rank <= namespace_ranks.get(sensor_name, rank):  (GENERATED sn_replaces, sn_default_rank)
+                     namespace_ranks[sensor_name] = rank;  sensors[sensor_name] = getter(key) *)
 Definition rtable := list (string * (nat * string)).        (* sensor name -> (rank, full key) *)
 Definition rtbl_set (t : rtable) (n : string) (v : nat * string) : rtable :=
   (n, v) :: filter (fun p => negb (String.eqb (fst p) n)) t.
 Definition rtbl_get (t : rtable) (n : string) : option (nat * string) :=
   option_map snd (find (fun p => String.eqb (fst p) n) t).
-Definition better (acc : option (nat * string)) (r : nat) (k : string) : option (nat * string) :=
-  match acc with
-  | Some (r0, k0) => if Nat.leb r r0 then Some (r, k) else Some (r0, k0)
-  | None => Some (r, k)
-  end.
+Definition type_holds (e : entry) : bool :=
+  if String.eqb sn_key_type "MUTABLE" then e_mut e
+  else if String.eqb sn_key_type "IMMUTABLE" then negb (e_mut e) else false.
+Definition is_sensor_key (e : entry) : bool := Bool.eqb (type_holds e) sn_key_type_eq.
+(* prefixes.index(key[:len(key) - len(sensor_name)]);  None = the ValueError of list.index *)
+Definition rank_in_code (ps : list string) (key name : string) : option nat :=
+  index_of (take (String.length key - String.length name) key) ps.
 Definition sensor_step (prefixes : list string) (t : rtable) (e : entry) : rtable :=
-  if e_mut e then
-    let n := shorten_key prefixes (e_key e) in
+  if is_sensor_key e then
+    let n := shorten_key (scan_prefixes prefixes) (e_key e) in
     if String.eqb n "" then t else
-    match key_rank prefixes (e_key e) with
-    | Some r => match better (rtbl_get t n) r (e_key e) with
-                | Some v => rtbl_set t n v
-                | None => t
-                end
+    match rank_in_code prefixes (e_key e) n with
+    | Some r =>
+        let old := match rtbl_get t n with Some (r0, _) => r0 | None => sn_default_rank r end in
+        if sn_replaces r old then rtbl_set t n (r, e_key e) else t
     | None => t
     end
   else t.
@@ -132,6 +142,8 @@ Definition sensor_table (prefixes : list string) (st : store) : rtable :=
   fold_left (sensor_step prefixes) st [].
 Definition sensor_key (prefixes : list string) (st : store) (n : string) : option string :=
   option_map snd (rtbl_get (sensor_table prefixes st) n).
+(* the names of the sensors of the data set *)
+Definition sensor_names (prefixes : list string) (st : store) : list string := map fst (sensor_table prefixes st).
 
 (* SPEC: the sensor [name] is read from the most specific namespace that defines it *)
 Fixpoint spec_sensor (st : store) (prefixes : list string) (name : string) : option string :=
@@ -154,46 +166,80 @@ Definition resolve_id (kw url file : option string) : option string :=
   | None => file
   end.
 
-Inductive res (A : Type) := Ok (a : A) | Err (code : Z).
-Arguments Ok {A} a. Arguments Err {A} code.
-
 (* stream_type check: view.get(l0_type_key, l0_type_default) must be l0_expected_type ('sdp.vis') *)
 Definition check_stream_type (ty : option string) : bool :=
   String.eqb (match ty with Some t => t | None => l0_type_default end) l0_expected_type.
 
 (* ---------- flag stream upgrade ---------- *)
-(* a candidate archived stream: its stream_type, src_streams, flags shape (dumps :: rest) and an id *)
-Record fstream := mkF { f_id : Z; f_type : option string; f_src : list string; f_dumps : Z; f_rest : list Z }.
 Record cinfo := mkC { c_id : Z; c_dumps : Z; c_rest : list Z }.
+(* a candidate archived stream as _upgrade_flags sees it through the candidate's view: its stream_type (None =
+   absent or not a string), its src_streams (None = KeyError), its chunk info (None = KeyError) *)
+Record fstream := mkF { f_type : option string; f_src : option (list string); f_info : option cinfo }.
 
 Definition zs_eqb (a b : list Z) : bool :=
   (Nat.eqb (List.length a) (List.length b) && forallb (fun p => Z.eqb (fst p) (snd p)) (combine a b))%bool.
 
+Definition type_is_flags (f : fstream) : bool :=
+  match f_type f with Some t => String.eqb t fl_type | None => false end.
 Definition is_flag_source (stream : string) (f : fstream) : bool :=
-  (match f_type f with Some t => String.eqb t fl_type | None => false end
-   && mem_string stream (f_src f))%bool.
+  (type_is_flags f && match f_src f with Some l => mem_string stream l | None => false end)%bool.
 
-(* _upgrade_flags: for s in archived: if type/sources match: shape[1:] check then replace *)
+(* _upgrade_flags: for s in archived:
+     if telstate_cs.get(type) != 'sdp.flags' or stream_name not in telstate_cs[src]: continue   (src only read when the
+                                                                             type matches; KeyError = Err 2)
+     flags_info = telstate_cs[chunk_info]                                    (KeyError = Err 2)
+     chunk_info = _upgrade_chunk_info(chunk_info, flags_info)                (shape[1:] differs = ValueError = Err 1) *)
+Inductive res (A : Type) := Ok (a : A) | Err (code : Z).
+Arguments Ok {A} a. Arguments Err {A} code.
 Fixpoint upgrade_flags (stream : string) (cur : cinfo) (archived : list fstream) : res cinfo :=
   match archived with
   | [] => Ok cur
   | f :: fs =>
-      if is_flag_source stream f then
-        if zs_eqb (f_rest f) (c_rest cur) then upgrade_flags stream (mkC (f_id f) (f_dumps f) (f_rest f)) fs
-        else Err 1
+      if type_is_flags f then
+        match f_src f with
+        | None => Err 2
+        | Some src =>
+            if mem_string stream src then
+              match f_info f with
+              | None => Err 2
+              | Some ci => if zs_eqb (c_rest ci) (c_rest cur) then upgrade_flags stream ci fs else Err 1
+              end
+            else upgrade_flags stream cur fs
+        end
       else upgrade_flags stream cur fs
   end.
 
-(* SPEC: the LAST matching archived flags stream replaces the stream's own flags; any matching stream with an
-   incompatible channel/baseline shape is an error *)
+(* SPEC.  What one archived stream means for the opened stream whose flags have channel/baseline shape [rest]:
+   None = it is not a flags stream of the opened stream (ignored); Some (Ok ci) = it replaces the flags;
+   Some (Err 1) = incompatible channel/baseline shape; Some (Err 2) = a flags stream that lacks its sources or its
+   chunk info.  The FIRST defective stream (in archived order) is the error reported; otherwise the LAST
+   replacing stream wins; without any the stream keeps its own flags. *)
+Definition candidate_status (stream : string) (rest : list Z) (f : fstream) : option (res cinfo) :=
+  match f_type f with
+  | Some t =>
+      if String.eqb t fl_type then
+        match f_src f with
+        | None => Some (Err 2)
+        | Some src =>
+            if mem_string stream src then
+              match f_info f with
+              | None => Some (Err 2)
+              | Some ci => if zs_eqb (c_rest ci) rest then Some (Ok ci) else Some (Err 1)
+              end
+            else None
+        end
+      else None
+  | None => None
+  end.
+Definition statuses (stream : string) (rest : list Z) (archived : list fstream) : list (res cinfo) :=
+  flat_map (fun f => match candidate_status stream rest f with Some r => [r] | None => [] end) archived.
+Definition is_err {A} (r : res A) : bool := match r with Err _ => true | Ok _ => false end.
 Definition spec_upgrade (stream : string) (cur : cinfo) (archived : list fstream) : res cinfo :=
-  let ms := filter (is_flag_source stream) archived in
-  if forallb (fun f => zs_eqb (f_rest f) (c_rest cur)) ms then
-    match rev ms with
-    | [] => Ok cur
-    | f :: _ => Ok (mkC (f_id f) (f_dumps f) (f_rest f))
-    end
-  else Err 1.
+  let ss := statuses stream (c_rest cur) archived in
+  match find is_err ss with
+  | Some r => r
+  | None => match rev ss with r :: _ => r | [] => Ok cur end
+  end.
 
 (* ---------- _align_chunk_info ---------- *)
 (* per array: time chunks (list of chunk lengths); phantom chunks of one dump are appended up to max *)
@@ -224,18 +270,23 @@ Definition chain_of (st : store) (vals : vtable) (stream : string) : option (lis
   chain st (names_of_vals vals) (S (List.length st)) stream.
 
 (* _upgrade_flags: telstate_cs = view_capture_stream(telstate, cb, s) stacked on the view of the opened stream
-   [base]; stream_type, src_streams and chunk_info of the candidate are read through that view
-   (keys generated: fl_type_key fl_src_key fl_chunk_info_key) *)
+   [base]; stream_type, src_streams and chunk_info of the candidate are read through that view, i.e. through the
+   candidate's own inherit chain and then the namespaces of the opened stream
+   (keys generated: fl_type_key fl_src_key fl_chunk_info_key).  None = outside the model: cyclic inherit chain,
+   src_streams / chunk_info present with a value of another shape. *)
 Definition fstream_of_with (prefixes_on : list string -> string -> list string -> list string)
     (st : store) (vals : vtable) (base : list string) (cb s : string) : option fstream :=
   match chain_of st vals s with
   | None => None
   | Some streams =>
       let ps := prefixes_on base cb streams in
-      match aget st vals ps fl_chunk_info_key with
-      | Some (id, AInfo d rest) =>
-          Some (mkF id (astr (aget st vals ps fl_type_key)) (astrs (aget st vals ps fl_src_key)) d rest)
-      | _ => None
+      let ty := astr (aget st vals ps fl_type_key) in
+      match aget st vals ps fl_src_key, aget st vals ps fl_chunk_info_key with
+      | Some (_, AStrs l), Some (id, AInfo d rest) => Some (mkF ty (Some l) (Some (mkC id d rest)))
+      | Some (_, AStrs l), None => Some (mkF ty (Some l) None)
+      | None, Some (id, AInfo d rest) => Some (mkF ty None (Some (mkC id d rest)))
+      | None, None => Some (mkF ty None None)
+      | _, _ => None
       end
   end.
 Definition fstream_of := fstream_of_with view_capture_stream_on.
@@ -329,6 +380,78 @@ Definition open_url_with (ot : omode -> store -> vtable -> string -> string -> r
 Definition open_url := open_url_with open_telstate.
 Definition spec_open_url := open_url_with spec_open_telstate.
 
+(* ---------- which failures of a source are "not found" ---------- *)
+(* outcome of katsdptelstate's load_from_file, by the class a handler would name (OSError: missing file, directory,
+   no permission; RdbParseError: not a valid RDB dump) *)
+Inductive load := Loaded | Raises (exn : string).
+(* error codes: 1/3 ValueError, 2 KeyError, 4 UnboundLocalError, 5 DataSourceNotFound, 6 any other exception,
+   8 not a v4 source (katdal.open hands the name to the HDF5 loaders), 9 outside the model *)
+Definition exn_code (x : string) : Z :=
+  if String.eqb x "DataSourceNotFound" then 5 else if String.eqb x "ValueError" then 3
+  else if String.eqb x "KeyError" then 2 else 6.
+(* from_url: scheme dispatch (GENERATED src_file_scheme, src_schemes), the handler around load_from_file
+   (src_load_caught -> src_load_raises), the final else (src_unknown_raises) *)
+Definition load_source (scheme : string) (l : load) : res unit :=
+  if String.eqb scheme src_file_scheme then
+    match l with
+    | Loaded => Ok tt
+    | Raises x => Err (exn_code (if mem_string x src_load_caught then src_load_raises else x))
+    end
+  else if mem_string scheme src_schemes then Err 9
+  else Err (exn_code src_unknown_raises).
+(* open_data_source: `try: return from_url(...) except <ods_catches>: ... raise <ods_raises>` *)
+Definition ods {A} (r : res A) : res A :=
+  match r with
+  | Err e => if existsb (fun x => Z.eqb (exn_code x) e) ods_catches then Err (exn_code ods_raises) else Err e
+  | Ok a => Ok a
+  end.
+(* the public entry points: from_url, open_data_source, katdal.open (name ends in '.rdb'?, has a scheme?) *)
+Inductive how := HFromUrl | HOds | HOpen (ends_rdb has_scheme : bool).
+Definition open_how_with (ou : omode -> store -> vtable -> option string -> option string -> option string -> option string
+                               -> res (string * string * opened))
+    (h : how) (scheme : string) (l : load) (m : omode) (st : store) (vals : vtable)
+    (kw_cb url_cb kw_sn url_sn : option string) : res (string * string * opened) :=
+  let fu := match load_source scheme l with
+            | Err e => Err e
+            | Ok _ => ou m st vals kw_cb url_cb kw_sn url_sn
+            end in
+  match h with
+  | HFromUrl => fu
+  | HOds => ods fu
+  | HOpen e s => if open_is_v4 e s then ods fu else Err 8
+  end.
+Definition open_how := open_how_with open_url.
+(* SPEC: an unreadable file and an unknown kind of source are "not found" whichever entry point is used and
+   whatever else is asked for; a readable one is opened as the property says (its own errors keep their class) *)
+Definition spec_open_how (h : how) (scheme : string) (l : load) (m : omode) (st : store) (vals : vtable)
+    (kw_cb url_cb kw_sn url_sn : option string) : res (string * string * opened) :=
+  match h with
+  | HOpen false false => Err 8
+  | _ =>
+    if String.eqb scheme "file" then
+      match l with
+      | Loaded => spec_open_url m st vals kw_cb url_cb kw_sn url_sn
+      | Raises x => if (String.eqb x "OSError" || String.eqb x "RdbParseError")%bool then Err 5 else Err (exn_code x)
+      end
+    else if mem_string scheme ["redis"; "http"; "https"] then Err 9
+    else Err 5
+  end.
+
+(* ---------- visdatav4._relative_view: the attributes of another stream seen from every namespace of the view ------- *)
+(*   prefix = telstate.prefixes[-1];  view = telstate.view(prefix + name, exclusive=True)
+     for prefix in reversed(telstate.prefixes[:-1]): view = view.view(prefix + name)
+   (GENERATED rv_exclusive, rv_reversed).  None = IndexError (a telstate always has at least one prefix). *)
+Definition relative_view (ps : list string) (name : string) : option (list string) :=
+  match rev ps with
+  | [] => None
+  | last :: before_rev =>
+      let base := if rv_exclusive then [] else ps in
+      let order := if rv_reversed then before_rev else rev before_rev in
+      Some (fold_left (fun v p => view v (p ++ name)) order (view base (last ++ name)))
+  end.
+Definition spec_relative_view (ps : list string) (name : string) : list string :=
+  map (fun p => (p ++ name) ++ sep) ps.
+
 (* ---------- wire ---------- *)
 Definition to_entry (x : sx) : entry :=
   match x with L [k; m; I v] => mkEntry (to_string k) (to_bool m) v | _ => mkEntry "" false 0 end.
@@ -339,9 +462,14 @@ Definition names_of (l : list string) (z : Z) : option string := nth_error l (Z.
 Definition of_optZ' (o : option Z) : sx := match o with Some z => L [I z] | None => L [] end.
 Definition to_fstream (x : sx) : fstream :=
   match x with
-  | L [I i; ty; src; I d; rest] => mkF i (to_optstring ty) (to_strings src) d (to_Zs rest)
-  | _ => mkF 0 None [] 0 []
+  | L [ty; src; info] =>
+      mkF (to_optstring ty) (match src with L [l] => Some (to_strings l) | _ => None end)
+          (match info with L [I i; I d; rest] => Some (mkC i d (to_Zs rest)) | _ => None end)
+  | _ => mkF None None None
   end.
+Definition to_load (x : sx) : load := match x with L [e] => Raises (to_string e) | _ => Loaded end.
+Definition to_how (x : sx) : how :=
+  match x with I 0 => HFromUrl | I 1 => HOds | L [e; s] => HOpen (to_bool e) (to_bool s) | _ => HFromUrl end.
 Definition of_res_cinfo (r : res cinfo) : sx :=
   match r with Ok c => L [I (c_id c); I (c_dumps c); of_Zs (c_rest c)] | Err e => L [I (-1); I e] end.
 
@@ -374,7 +502,11 @@ Definition of_res_opened (r : res opened) : sx :=
    (7 arrays)                       -> aligned chunks
    (8 mode store vals kw_cb url_cb kw_sn url_sn) -> (model spec) of opening from the telstate; mode = (store? (upgrade)? (n_ts)?)
    (9 mode stream (id dumps rest) archived)      -> (model spec) of open_source
-   (10 store vals base cb s)        -> () | (prefixes of the candidate view) *)
+   (10 store vals base cb s)        -> () | (prefixes of the candidate view)
+   (11 prefixes name)               -> () | (model spec) of _relative_view
+   (12 how scheme load mode store vals kw_cb url_cb kw_sn url_sn) -> (model spec) of the entry point `how`
+       how = 0 from_url | 1 open_data_source | (ends_rdb has_scheme) katdal.open;  load = () loaded | (exception class)
+   (13 store prefixes)              -> names of the sensor table (in table order) *)
 Definition wire_18 (x : sx) : sx :=
   match x with
   | L [I 1; st; names; cb; stream] =>
@@ -409,5 +541,17 @@ Definition wire_18 (x : sx) : sx :=
       | Some ss => L [L (map of_string (view_capture_stream_on (to_strings base) (to_string cb) ss))]
       | None => L []
       end
+  | L [I 11; ps; name] =>
+      match relative_view (to_strings ps) (to_string name) with
+      | Some v => L [L (map of_string v); L (map of_string (spec_relative_view (to_strings ps) (to_string name)))]
+      | None => L []
+      end
+  | L [I 12; h; scheme; l; m; st; vals; kwcb; urlcb; kwsn; urlsn] =>
+      let st := to_store st in let vals := map to_aval (to_list vals) in let m := to_mode m in
+      L [of_res_url (open_how (to_how h) (to_string scheme) (to_load l) m st vals
+                              (to_optstring kwcb) (to_optstring urlcb) (to_optstring kwsn) (to_optstring urlsn));
+         of_res_url (spec_open_how (to_how h) (to_string scheme) (to_load l) m st vals
+                                   (to_optstring kwcb) (to_optstring urlcb) (to_optstring kwsn) (to_optstring urlsn))]
+  | L [I 13; st; prefixes] => L (map of_string (sensor_names (to_strings prefixes) (to_store st)))
   | _ => sx_err
   end.
